@@ -393,18 +393,30 @@ def cfg_key(cfg):
 
 
 def stratified(entries, rng, n=QUICK_CONFIGS):
-    """~n configurations: 3 of every (api, expected set) stratum, then greedily whatever covers a new pair of
-    (field=value) / expected-set features."""
+    """~n configurations: 2 of every stratum, then greedily whatever covers a new pair of (field=value) /
+    expected-set features.  A stratum fixes the API, the expected set and everything a warning site may look at
+    (resolved method euler / reversible_heun / other; for euler whether the noise is additive; for reversible_heun
+    the resolved adjoint method being its partner, adjoint_adaptive and the alignment; adaptive; unknown kwargs
+    present), so that also the combinations in which a site must stay SILENT are executed (sdeint with
+    reversible_heun, euler with additive noise, ...)."""
     entries = sorted(entries, key=lambda e: json.dumps(e["cfg"], sort_keys=True))
     order = list(range(len(entries)))
     rng.shuffle(order)
+
+    def stratum(e):
+        c, s = e["cfg"], e["sel"]
+        m = s["method"] if s["method"] in ("euler", "reversible_heun") else "other"
+        return (c["api"], tuple(sorted(e["warned"])), m, c["adaptive"], c["extra"] > 0,
+                c["nt"] == "additive" if m == "euler" else None,
+                (s["adjm"] == "adjoint_reversible_heun", c["adjoint_adaptive"], c["align"] == "misaligned")
+                if m == "reversible_heun" else None)
+
     strata = collections.defaultdict(list)
     for i in order:
-        e = entries[i]
-        strata[(e["cfg"]["api"], tuple(sorted(e["warned"])))].append(i)
+        strata[stratum(entries[i])].append(i)
     chosen = []
-    for k in sorted(strata):
-        chosen += strata[k][:3]
+    for k in sorted(strata, key=repr):
+        chosen += strata[k][:2]
     taken = set(chosen)
 
     def feats(e):
